@@ -94,9 +94,13 @@ class SimQueue(_Proxy):
         super().__init__()
         self._items: collections.deque = collections.deque()
         self._pickled = pickled
+        self._maxsize = maxsize or 0
 
     def qsize(self) -> int:
         return len(self._items)
+
+    def full(self) -> bool:
+        return 0 < self._maxsize <= len(self._items)
 
     def empty(self) -> bool:
         return not self._items
@@ -109,6 +113,17 @@ class SimQueue(_Proxy):
             item = buf.getvalue()
         if k:
             k.yield_('queue.put')
+            deadline = None if timeout is None else k.now + timeout
+            while self.full():  # a bounded queue: the producer waits for room (or is told there is none)
+                k.probe('queue-full')
+                if not block:
+                    raise queuemod.Full()
+                remaining = None if deadline is None else deadline - k.now
+                if remaining is not None and remaining <= 0:
+                    raise queuemod.Full()
+                k.block(('queue-room', self._oid), remaining, 'queue.put:block')
+        elif self.full():
+            raise queuemod.Full()
         self._items.append(item)
         if k:
             k.wake(('queue', self._oid))
@@ -133,6 +148,8 @@ class SimQueue(_Proxy):
         elif not self._items:
             raise queuemod.Empty()
         item = self._items.popleft()
+        if k and self._maxsize:
+            k.wake(('queue-room', self._oid))
         return reduction.pickle.loads(item) if self._pickled else item
 
     def get_nowait(self):
